@@ -20,6 +20,19 @@ def mk(dir_, module, field, sig, ident, file, line, referenced=True):
             "line": line, "referenced": referenced}
 
 
+def mark_referenced(decls, wcs):
+    """An import is 'actually referenced' when its source identifier occurs in its scope (decl['_scope'] indexes the
+    word counters `wcs`) more often than it is declared there."""
+    import collections
+    dc = collections.Counter((d.get("_scope"), d["ident"]) for d in decls if d["dir"] == "I")
+    for d in decls:
+        if d["dir"] == "I" and "_scope" in d:
+            d["referenced"] = wcs[d["_scope"]][d["ident"]] > dc[(d["_scope"], d["ident"])]
+    for d in decls:
+        d.pop("_scope", None)
+    return decls
+
+
 def text_files(files, exts):
     return {n: t for n, t in files.items() if isinstance(t, str) and n.endswith(tuple(exts))}
 
@@ -40,3 +53,15 @@ def split_params(s):
     if cur.strip():
         out.append(cur)
     return [p.strip() for p in out if p.strip()]
+
+
+_WORD = re.compile(r"[A-Za-z_$][A-Za-z0-9_$]*")
+
+
+def word_counts(texts):
+    """identifier -> number of occurrences over the texts (one pass; replaces repeated count_word calls)."""
+    import collections
+    c = collections.Counter()
+    for t in texts:
+        c.update(_WORD.findall(t))
+    return c
